@@ -65,6 +65,31 @@ func (ev *evaluator) varOrigins(cs *evalCase) map[types.Object]int {
 	out := map[types.Object]int{}
 	for _, st := range cs.clause.Body {
 		ast.Inspect(st, func(n ast.Node) bool {
+			if rs, ok := n.(*ast.RangeStmt); ok {
+				// the element variable of a loop over an operand-derived collection comes from that operand
+				k := -1
+				ast.Inspect(rs.X, func(m ast.Node) bool {
+					if e, ok := m.(ast.Expr); ok {
+						if kk, ok := ev.rhsIndex(e); ok {
+							k = kk
+						}
+					}
+					if id, ok := m.(*ast.Ident); ok {
+						if kk, ok := out[info.Uses[id]]; ok {
+							k = kk
+						}
+					}
+					return true
+				})
+				if k >= 0 {
+					if id, ok := rs.Value.(*ast.Ident); ok && id.Name != "_" {
+						if o := info.Defs[id]; o != nil {
+							out[o] = k
+						}
+					}
+				}
+				return true
+			}
 			as, ok := n.(*ast.AssignStmt)
 			if !ok || len(as.Rhs) != 1 {
 				return true
